@@ -22,6 +22,8 @@ mod c16;
 mod c17;
 mod c18;
 mod c19;
+mod lockscan;
+mod c20;
 
 use proto::Recorder;
 use std::path::PathBuf;
@@ -33,6 +35,21 @@ fn main() {
         std::process::exit(2);
     }
     let prop = args[1].clone();
+    if prop == "lockscan" {
+        let scan = lockscan::scan_dir(args.get(2).map(|s| s.as_str()).unwrap_or("/repo/src"));
+        let locking = scan.locking();
+        println!("files={} problems={:?}", scan.files, scan.problems);
+        println!("locking names: {:?}", locking);
+        for (name, infos) in &scan.fns { for f in infos {
+            for s in &f.sites { println!("site {}:{} fn {} mode {} lock {} scope {} calls {:?} inner {:?}", s.file, s.line, name, s.mode, s.lock, s.scope, s.calls.iter().map(|c| c.0.clone()).collect::<Vec<_>>(), s.inner_acqs); }
+            let mut o = vec![]; scan.prog(f, &locking, 6, &mut o);
+            if !o.is_empty() { println!("prog {} [{}] = {}", name, f.file, o.join(",")); }
+        } }
+        return;
+    }
+    if prop == "c20child" {
+        std::process::exit(c20::child(&args[2]));
+    }
     if prop == "c10child" {
         std::process::exit(enf::c10_child(&args[2], &args[3], &args[4], args[5].parse().unwrap()));
     }
@@ -84,6 +101,7 @@ fn main() {
         "C11" => c11::run(&mut rec, &mut w, &tier, seed),
         "C18" => c18::run(&mut rec, &mut w, &tier, seed),
         "C19" => c19::run(&mut rec, &mut w, &tier, seed),
+        "C20" => c20::run(&mut rec, &mut w, &tier, seed),
         "C15" => c15::run(&mut rec, &mut w, &tier, seed),
         "C16" => c16::run(&mut rec, &mut w, &tier, seed),
         "C02" => c02::run(&mut rec, &mut w, &tier, seed),
